@@ -279,7 +279,8 @@ def check(ctx):
         if isinstance(v_, ast.Name):
             dd_ = reaching_assignments(prog, gen, v_.id, r_)
             v_ = dd_[0] if len(dd_) == 1 else v_
-        if call_name(v_) == "np.vstack" and v_.args and isinstance(v_.args[0], (ast.Tuple, ast.List)) and len(v_.args[0].elts) == 2:
+        row_stack = call_name(v_) in ("np.vstack", "np.row_stack") or (call_name(v_) == "np.concatenate" and (kw(v_, "axis") is None and len(v_.args) < 2 or const_num(kw(v_, "axis") or (v_.args[1] if len(v_.args) > 1 else None)) == 0))
+        if row_stack and v_.args and isinstance(v_.args[0], (ast.Tuple, ast.List)) and len(v_.args[0].elts) == 2:
             e0 = v_.args[0].elts[0]
             e0 = e0.operand if isinstance(e0, ast.UnaryOp) else e0
             st_ = mf.state_before(r_ if isinstance(r_.value, ast.Call) else r_)
